@@ -180,3 +180,31 @@ pub fn matches(query: &Query, tree: &Tree, source: &str, info: &TreeInfo) -> Vec
     }
     out
 }
+
+/// regexes of every `scan` statement (arm order), for the oracle's look-ahead
+pub fn scan_arm_sets(f: &File) -> Vec<Vec<String>> {
+    fn walk(ss: &[Statement], out: &mut Vec<Vec<String>>) {
+        for s in ss {
+            match s {
+                Statement::Scan(sc) => {
+                    out.push(sc.arms.iter().map(|a| a.regex.as_str().to_string()).collect());
+                    for a in &sc.arms {
+                        walk(&a.statements, out);
+                    }
+                }
+                Statement::If(i) => {
+                    for a in &i.arms {
+                        walk(&a.statements, out);
+                    }
+                }
+                Statement::ForIn(fi) => walk(&fi.statements, out),
+                _ => {}
+            }
+        }
+    }
+    let mut out = Vec::new();
+    for st in &f.stanzas {
+        walk(&st.statements, &mut out);
+    }
+    out
+}
